@@ -30,7 +30,10 @@ func main() {
 			os.Exit(2)
 		}
 		run := mon.NewRun(strings.ToUpper(os.Args[2][:3]), os.Args[3])
-		fn(run)
+		func() {
+			defer run.Protect("child main")
+			fn(run)
+		}()
 		if err := os.WriteFile(os.Args[4], run.Export(), 0o644); err != nil {
 			os.Exit(3)
 		}
@@ -67,11 +70,7 @@ func main() {
 		os.Exit(run.Finish())
 	}
 	func() {
-		defer func() {
-			if e := recover(); e != nil {
-				run.Inconclusive(fmt.Sprintf("harness panic: %v at %s", e, mon.PanicSite()))
-			}
-		}()
+		defer run.Protect("main")
 		fn(run)
 	}()
 	os.Exit(run.Finish())
